@@ -373,6 +373,28 @@ theorem over_blocks (ops : List Op) : ∀ s, Inv s → ∃ s', runOps s ops = .o
     obtain ⟨s2, h2, hi2⟩ := ih s1 hi
     exact ⟨s2, by simp [runOps, h1, h2], hi2⟩
 
+/-- **every_block_moves_min** — in every history (any prefix `pre` of parameter changes, funding, toggles
+    and blocks, of any length, from the initial state or any state satisfying the invariant), the next block
+    moves exactly `min (reward) (remaining)` per denomination when vesting is on and nothing when it is off. -/
+theorem every_block_moves_min (pre : List Op) (s : State) (h : Inv s) :
+    ∃ s1 s2, runOps s pre = .ok s1 ∧ beginBlock s1 = .ok s2 ∧
+      ∀ d, (s1.enabled = true →
+              s2.pool d = s1.pool d - min (rewardOf s1 d) (s1.pool d) ∧
+              s2.fee d = s1.fee d + min (rewardOf s1 d) (s1.pool d)) ∧
+           (s1.enabled = false → s2.pool d = s1.pool d ∧ s2.fee d = s1.fee d) ∧
+           s2.pool d + s2.fee d = s1.pool d + s1.fee d ∧ 0 ≤ s2.pool d := by
+  obtain ⟨s1, h1, hi⟩ := over_blocks pre s h
+  obtain ⟨s2, h2, h3⟩ := supply_conserved s1 hi.1 hi.2
+  refine ⟨s1, s2, h1, h2, fun d => ⟨?_, ?_, (h3 d).1, (h3 d).2⟩⟩
+  · intro hen
+    obtain ⟨s2', h2', _, _, h4⟩ := moves_min s1 hen hi.1 hi.2
+    rw [h2] at h2'; cases h2'
+    exact h4 d
+  · intro hdis
+    have := idle_disabled s1 hdis
+    rw [h2] at this; cases this
+    exact ⟨rfl, rfl⟩
+
 /-! ### non-vacuity -/
 
 /-- A concrete validated parameter set with two denominations and a pool that runs dry on one. -/
